@@ -365,6 +365,17 @@ def large_models(mb: ModelBuilder, ops: Iterable[str], mixed: bool = True, cardi
     ctcs.append(mb.constraint("k13", deepc))
     out.append(("many-constraints", mb.model(root, ctcs),
                 "thirteen constraints, one feature in eleven of them, six-operand chains, nesting depth five", cc))
+    # names that are a proper prefix / suffix / infix of one another, each on a feature with children of its own, the
+    # longer one met first and the shorter one met first (text searched for a name finds the other one)
+    root = F("MB")
+    for nm_, lo_ in (("AB", 1), ("B", 0), ("A", 0), ("ABC", 1), ("BCD", 0), ("C", 0)):
+        f_ = F(nm_)
+        mb.relation(root, [f_], lo_, 1)
+        mb.relation(f_, [F(f"Kid{nm_}1"), F(f"Kid{nm_}2")], 1, 2 if nm_ in ("B", "ABC") else 1)
+    ctcs_ = [mb.constraint("a1", n(o(ops[0]), n("AB"), n("B"))), mb.constraint("a2", n(o(ops[-1]), n("A"), n("ABC"))),
+             mb.constraint("a3", n(o(ops[0]), n("C"), n("BCD")))]
+    out.append(("affix-names", mb.model(root, ctcs_), "names that are prefixes / suffixes / infixes of one another, on "
+                "features with children of their own", tree + cc))
     # long names sharing a long prefix
     stem = "Component_" + "abcdefghij" * 4
     root = F("Root")
@@ -638,6 +649,7 @@ class Codec:
 
     def writer_reuse(self, mb: ModelBuilder, rule: str = "REUSE", **kw: Any) -> None:
         writer_reuse_check(self, mb, rule, **kw)
+        writer_failed_then_reused(self, mb, rule, **kw)
 
     def reader_reuse(self, mb: ModelBuilder, rule: str = "REUSE", **kw: Any) -> None:
         """Histories of reading: (1) a document is read, the caller edits the model it got, and the same document is
@@ -826,3 +838,53 @@ def writer_reuse_check(self: Any, mb: ModelBuilder, rule: str = "REUSE", **kw: A
                       f"one a fresh writer produces for the model as it is now")
     reset_global_state()
 
+
+
+def writer_failed_then_reused(self: Any, mb: ModelBuilder, rule: str = "REUSE", **kw: Any) -> None:
+    """One writer object whose transform() fails half-way (the last constraint has no formula yet), the caller completes
+    the model through the public setter, and transform() is called again on the same object: the text must be the one a
+    fresh writer produces for the completed model - nothing of the failed attempt may be left in the object."""
+    from .absint import reset_global_state
+    ctx, pm = self.ctx, self.pm
+    ci = pm.cls(self.W)
+    tr = pm.method(ci, "transform")
+    key = "same-writer-object:failed-then-completed"
+    P = f"{self.prefix}-{rule}"
+
+    def build(complete: bool) -> tuple[AObj, Any]:
+        m, _edit = Codec.reuse_base(self, mb, **kw)
+        last = m._f["ctcs"][-1]
+        formula = last._f["_ast"]
+        if not complete:
+            last._f["_ast"] = None
+        return m, formula
+    reset_global_state()
+    model, formula = build(False)
+    vfs = VFS()
+    it = new_interp(pm, vfs)
+    if self.wsetup:
+        self.wsetup(it, vfs)
+    try:
+        w = it.eval_call_class(ci, [PATH, model])
+        try:
+            it.call(tr, [w])
+            ctx.info(P, key, self.wwhere, "a constraint without a formula does not make the writer fail")
+            reset_global_state()
+            return
+        except (AbsRaise, AbsMutation):
+            pass
+        mb._pin(model._f["ctcs"][-1], "ast", formula)
+        returned = it.call(tr, [w])
+        second = vfs.files.get(PATH)
+    except (AbsRaise, AbsMutation) as exc:
+        ctx.info(P, key, self.wwhere, f"a writer object used again after a failed call raises {exc.what}")
+        reset_global_state()
+        return
+    reset_global_state()
+    fresh = run_writer(pm, self.W, build(True)[0], setup=self.wsetup)
+    if not fresh["raise"]:
+        ctx.check(second == fresh["written"] and same_content(returned, second), P, key, self.wwhere,
+                  "a writer object whose first call failed writes, once the model is completed, what a fresh writer writes",
+                  bad=f"{self.W}: after a transform() that failed half-way the same object, called again on the completed "
+                      f"model, writes a text that is not the one a fresh writer produces (left-overs of the failed call)")
+    reset_global_state()
